@@ -63,16 +63,16 @@ func parseGroups(doc *yaml.Node, schema Schema, offsetLine, offsetColumn int, co
 					Err:  fmt.Errorf("groups key must be a %s, got a %s", describeTag(strTag), describeTag(entry.key.ShortTag())),
 				}
 			}
-			if entry.key.Value != "groups" {
+			if nodeValue(entry.key) != "groups" {
 				return nil, ParseError{
 					Line: entry.key.Line,
-					Err:  fmt.Errorf("unexpected key %s", entry.key.Value),
+					Err:  fmt.Errorf("unexpected key %s", nodeValue(entry.key)),
 				}
 			}
 			if hasGroups {
 				return nil, ParseError{
 					Line: entry.key.Line,
-					Err:  fmt.Errorf("duplicated key %s", entry.key.Value),
+					Err:  fmt.Errorf("duplicated key %s", nodeValue(entry.key)),
 				}
 			}
 			hasGroups = true
@@ -111,7 +111,7 @@ func parseGroup(node *yaml.Node, schema Schema, offsetLine, offsetColumn int, co
 	setKeys := make(map[string]struct{}, len(node.Content))
 
 	for _, entry := range mappingNodes(node) {
-		switch entry.key.Value {
+		switch nodeValue(entry.key) {
 		case "name":
 			if entry.val.Kind != yaml.ScalarNode || entry.val.ShortTag() != strTag {
 				group.Error = ParseError{
@@ -132,7 +132,7 @@ func parseGroup(node *yaml.Node, schema Schema, offsetLine, offsetColumn int, co
 			if entry.val.Kind != yaml.ScalarNode || entry.val.ShortTag() != strTag {
 				group.Error = ParseError{
 					Line: entry.key.Line,
-					Err:  fmt.Errorf("group %s must be a %s, got %s", entry.key.Value, describeTag(strTag), describeTag(entry.val.ShortTag())),
+					Err:  fmt.Errorf("group %s must be a %s, got %s", nodeValue(entry.key), describeTag(strTag), describeTag(entry.val.ShortTag())),
 				}
 				return group
 			}
@@ -140,7 +140,7 @@ func parseGroup(node *yaml.Node, schema Schema, offsetLine, offsetColumn int, co
 			if interval, err = model.ParseDuration(entry.val.Value); err != nil {
 				group.Error = ParseError{
 					Line: entry.key.Line,
-					Err:  fmt.Errorf("invalid %s value: %w", entry.key.Value, err),
+					Err:  fmt.Errorf("invalid %s value: %w", nodeValue(entry.key), err),
 				}
 				return group
 			}
@@ -149,7 +149,7 @@ func parseGroup(node *yaml.Node, schema Schema, offsetLine, offsetColumn int, co
 			if entry.val.Kind != yaml.ScalarNode || entry.val.ShortTag() != strTag {
 				group.Error = ParseError{
 					Line: entry.key.Line,
-					Err:  fmt.Errorf("group %s must be a %s, got %s", entry.key.Value, describeTag(strTag), describeTag(entry.val.ShortTag())),
+					Err:  fmt.Errorf("group %s must be a %s, got %s", nodeValue(entry.key), describeTag(strTag), describeTag(entry.val.ShortTag())),
 				}
 				return group
 			}
@@ -157,7 +157,7 @@ func parseGroup(node *yaml.Node, schema Schema, offsetLine, offsetColumn int, co
 			if queryOffset, err = model.ParseDuration(entry.val.Value); err != nil {
 				group.Error = ParseError{
 					Line: entry.key.Line,
-					Err:  fmt.Errorf("invalid %s value: %w", entry.key.Value, err),
+					Err:  fmt.Errorf("invalid %s value: %w", nodeValue(entry.key), err),
 				}
 				return group
 			}
@@ -245,19 +245,19 @@ func parseGroup(node *yaml.Node, schema Schema, offsetLine, offsetColumn int, co
 		default:
 			group.Error = ParseError{
 				Line: entry.key.Line,
-				Err:  fmt.Errorf("invalid group key %s", entry.key.Value),
+				Err:  fmt.Errorf("invalid group key %s", nodeValue(entry.key)),
 			}
 			return group
 		}
 
-		if _, ok := setKeys[entry.key.Value]; ok {
+		if _, ok := setKeys[nodeValue(entry.key)]; ok {
 			group.Error = ParseError{
 				Line: entry.key.Line,
-				Err:  fmt.Errorf("duplicated key %s", entry.key.Value),
+				Err:  fmt.Errorf("duplicated key %s", nodeValue(entry.key)),
 			}
 			return group
 		}
-		setKeys[entry.key.Value] = struct{}{}
+		setKeys[nodeValue(entry.key)] = struct{}{}
 	}
 
 	if _, ok := setKeys["rules"]; ok {
@@ -287,7 +287,7 @@ func parseRuleStrict(rule *yaml.Node, contentLines []string) Rule {
 		if i%2 != 0 {
 			continue
 		}
-		switch node.Value {
+		switch nodeValue(node) {
 		case recordKey:
 		case alertKey:
 		case exprKey:
@@ -299,7 +299,7 @@ func parseRuleStrict(rule *yaml.Node, contentLines []string) Rule {
 			return Rule{
 				Error: ParseError{
 					Line: node.Line,
-					Err:  fmt.Errorf("invalid rule key %s", node.Value),
+					Err:  fmt.Errorf("invalid rule key %s", nodeValue(node)),
 				},
 			}
 		}
